@@ -53,4 +53,5 @@ package auth
 //@ props C20 C16
 //@ func Credentials.Authenticate
 //@   nopanic
+//@   assigns nothing
 //@   ensures [C20] result1 == nil ==> result0 != nil && lastcmp == 1 && lastcmp_a == lastkdf_out && lastkdf_pw == sid(c.Password)
